@@ -21,6 +21,7 @@ import (
 	"github.com/prometheus/alertmanager/nflog"
 	"github.com/prometheus/alertmanager/silence"
 
+	"verifharness/appsys"
 	"verifharness/vh"
 )
 
@@ -577,6 +578,11 @@ func runOne(t *testing.T, run *vh.Run, r *vh.Rand, c *Case, exhaustiveLimit int)
 func TestCheck(t *testing.T) {
 	env := vh.GetEnv()
 	run := vh.NewRun(env, "AM.Run.C11Run")
+	// app engine: the REAL application wiring (package app) in real time, in its own process; reports through run.
+	// true = the replay file held an app-engine case and has been handled.
+	if appsys.Part(t, env, run, "C11") {
+		return
+	}
 	curRun, blobName = run, map[string]string{}
 	r := vh.NewRand(env.Seed)
 	if env.Replay != "" {
